@@ -93,7 +93,8 @@ func storeVal(v int) any {
 	case 4:
 		return register([]int{contentID(v)}, v)
 	case 5:
-		return register(map[string]int{"id": contentID(v)}, v)
+		// a map[string]any: merging a map VALUE into the store replaces the old one, it is not merged into it
+		return register(map[string]any{"id": contentID(v), fmt.Sprintf("own%d", v): true}, v)
 	case 6:
 		return register(&Tok{ID: contentID(v)}, v)
 	}
@@ -148,6 +149,16 @@ func storeValID(x any) int {
 		}
 	case map[string]int:
 		return t["id"]
+	case map[string]any:
+		// an object the harness did not make (or a merged one): told by its content
+		if len(t) == 2 {
+			if n, ok := t["id"].(int); ok {
+				if _, own := t[fmt.Sprintf("own%d", n)]; own {
+					return n
+				}
+			}
+		}
+		return 9998
 	case *Tok:
 		if t != nil {
 			return t.ID
